@@ -628,6 +628,13 @@ def units():
             for gz in (True, False):
                 u.append(("exponent/%s/nspin%d/%s" % ("gga" if gga else "mgga", nspin, "grad0" if gz else "grad+"), unit_exponent(gga, nspin, gz)))
     u.append(("s2_alpha", unit_s2_alpha))
+    # the exponent -> spline index map must invert the node placement (otherwise the represented Gaussian has exponent a^k, k != 1, and no feature keeps its power)
+    from contracts import c02
+    u.append(("spline-setup", c02.unit_spline_setup))
+    # the smooth exponent cutoff saturates at the largest exponent of the WHOLE grid, whatever part of it the process holds (otherwise the exponent stops scaling
+    # like lambda^2 well inside the grid) — shared with C18
+    from contracts import c18
+    u.append(("plan-exponent-guards", c18.unit_reject_plans))
     for mode in ("nst", "npa", "ns", "np"):
         for nspin in (1, 2):
             u.append(("semilocal/%s/nspin%d" % (mode, nspin), unit_semilocal(mode, nspin)))
